@@ -192,6 +192,10 @@ class C12(Prop):
         comm = nocomment(open(os.path.join(E.REPO, "src/comm.c"), errors="replace").read())
         back = nocomment(open(os.path.join(E.REPO, "src/backend.c"), errors="replace").read())
         out = []
+        mb = re.search(r"\nvoid backend \(\) \{(.*?)\n\}", back, re.S)
+        if not mb:
+            raise X.TieBroken("guard:backend", "cannot locate backend() in src/backend.c")
+        back = mb.group(1) + "\n"       # every tie on backend.c looks at the body of backend() only
         # (a) the rotating cursor of get_user_command: both update sites must exist and agree
         m0 = re.search(r"static char\s*\*\s*get_user_command \(\) \{(.*?)\n\}", comm, re.S)
         if not m0:
